@@ -59,6 +59,53 @@ func emitC17Paths(c *runCfg, idp *int, e *errT) {
 	}
 }
 
+// emitC17Shared: error values are shared (package-level sentinels, errors kept in a table): decorating a value
+// again — also with the decoration it already carries outermost — yields a new value and leaves the decorated
+// one as it was. The value is reported, decorated, the result reported, and the value reported once more.
+func emitC17Shared(c *runCfg, idp *int) {
+	base := func(t string) *errT { return &errT{kind: "base", a: []byte(t)} }
+	id := *idp
+	defer func() { *idp = id }()
+	{
+		decos := []*errT{{kind: "sev", a: []byte("WARNING")}, {kind: "sev", a: []byte("")}, {kind: "code", a: []byte("42P01")}, {kind: "hint", a: []byte("other hint")},
+			{kind: "detail", a: []byte("other detail")}, {kind: "source", a: []byte("other.go"), line: 99, b: []byte("g")}, {kind: "constraint", a: []byte("other_c")}, {kind: "wrap", a: []byte("again: ")}}
+		var shared []*errT
+		for _, d := range decos {
+			// the shared value already carries that decoration outermost, or somewhere inside, or not at all
+			for _, mk := range []func() *errT{
+				func() *errT { c := *d; c.a = []byte("FATAL"); c.inner = base("shared"); return &c },
+				func() *errT { c := *d; c.a = []byte("FATAL"); c.inner = base("shared"); return &errT{kind: "hint", a: []byte("outer hint"), inner: &c} },
+				func() *errT { return base("shared") },
+			} {
+				shared = append(shared, mk())
+			}
+		}
+		for si, e := range shared {
+			d := decos[si/3]
+			func() {
+				defer func() { recover() }()
+				report := func(x error) []byte {
+					var sink bytes.Buffer
+					w := buffer.NewWriter(quiet, &sink)
+					wire.ErrorCode(w, x)
+					return sink.Bytes()
+				}
+				x := mkErr(e)
+				report(x)
+				y := decorate(d, x)
+				de := *d
+				de.inner = e
+				out2, out3 := report(y), report(x)
+				c.out.line(sx("c17", id, "shared_decorated", sx("err", de.sx()), sx("out", out2), sx("panic", false)))
+				id++
+				c.out.line(sx("c17", id, "shared_again", sx("err", e.sx()), sx("out", out3), sx("panic", false)))
+				id++
+				c.stat("class_shared")
+			}()
+		}
+	}
+}
+
 func runC17(c *runCfg) error {
 	id := 0
 	emit := func(class string, e *errT) {
@@ -79,6 +126,7 @@ func runC17(c *runCfg) error {
 		defer f.Close()
 		sc := bufio.NewScanner(f)
 		sc.Buffer(make([]byte, 1<<20), 1<<26)
+		sharedDone := false
 		for sc.Scan() {
 			l := sc.Text()
 			if !strings.HasPrefix(l, "(c17 ") {
@@ -89,7 +137,12 @@ func runC17(c *runCfg) error {
 				return err
 			}
 			en := n.field("err").list[1]
-			if en.leaf {
+			if strings.HasPrefix(n.list[2].atom, "shared_") {
+				if !sharedDone {
+					sharedDone = true
+					emitC17Shared(c, &id)
+				}
+			} else if en.leaf {
 				emit("replay", nil)
 			} else if strings.HasPrefix(n.list[2].atom, "path_") {
 				emitC17Paths(c, &id, errFrom(en))
@@ -156,6 +209,7 @@ func runC17(c *runCfg) error {
 		emit("codes", &errT{kind: "code", a: []byte("XXUUU"), inner: &errT{kind: "code", a: []byte(cd), inner: base("c")}})
 		emit("codes", &errT{kind: "code", a: []byte(""), inner: &errT{kind: "code", a: []byte(cd), inner: base("c")}})
 	}
+	emitC17Shared(c, &id)
 	// the same error through every path of a real connection: returned by the parse function for a simple query
 	// and for an extended Parse, returned by the statement function under Execute and under a simple query.
 	// Each ErrorResponse on the wire is judged like the direct call (the path adds and changes nothing).
